@@ -143,6 +143,14 @@ def build(spec, with_settings=True):
                 parset.pars[pname].meta_y_factor = float(f)
             else:
                 parset.pars[pname].y_factor[pop] = float(f)
+    for tname, yf in (spec.get("transfer_y_factors") or {}).items():
+        # calibration factors of a transfer: one Parameter per source population, y_factor per destination population, one all-population factor
+        for frm, par in parset.transfers[tname].items():
+            if "_meta" in yf:
+                par.meta_y_factor = float(yf["_meta"])
+            for to in list(par.y_factor.keys()):
+                if f"{frm}>{to}" in yf:
+                    par.y_factor[to] = float(yf[f"{frm}>{to}"])
     start, end, dt = spec["settings"]
     settings = at.ProjectSettings(sim_start=start, sim_end=end, sim_dt=dt)
     return fw, data, parset, settings
